@@ -69,7 +69,9 @@ LEVEL_NOTE = ('Trusted: Coq kernel, gen_tables.py, extraction + OCaml driver, th
               '(backups are not part of the property); (6) symbolic links other than a single-level link at the target path; '
               '(7) errors raised by the backup copy or the permission probe inside close() are covered as unwinding points of the harness, '
               'their own effects (a partial backup file) only by the effect-list model of the copy; (8) the real mktemp()/clock are replaced '
-              'by fixed inputs in the harness (token uniqueness is an assumption).')
+              'by fixed inputs in the harness (token uniqueness is an assumption); (9) permission bits and ownership of the target are not part of '
+              'the file-system model (a rename commit does not read them): targets with non-default modes (0600/0640, plain and behind a link) '
+              'are in the corpus so that a commit path that depends on them shows up as an effect-sequence disagreement and a failing crash point.')
 TECHNIQUE = 'Coq proof (prefix invariants over effect lists) + regenerated tables + fault-enumeration correspondence of the extracted model'
 EXPLANATION = 'C17: effect-list model of src/utils/file.py AtomicFile; theorems in coq/C17/Props.v'
 
